@@ -92,7 +92,10 @@ def sessions_of(seed, population='core'):
     import kernpy as kp
     text = session.render(lines)
     doc, errs = kp.loads(text)
-    starts = gen.measure_rows(lines, types)
+    # which lines belong to measure k is read from the IMPLEMENTATION's measure index (whether that index is right is C07's
+    # statement); C08 asks what the excerpt of those lines looks like
+    nonblank = [i for i, e in enumerate(lines) if e['ev'] != 'blank']
+    starts = [nonblank[st - 1] for st in doc.measure_start_tree_stages if 0 < st <= len(nonblank)]
     M = len(starts)
     tracker = {id(e): paths for e, paths in gen.path_tracker(lines)}
     doc_classes = gen.range_classes(lines) | gen.doc_classes(lines)
